@@ -292,6 +292,67 @@ def h_data(ctx):
     ctx.outcome("bin=%s" % bin_type)
     ctx.nontrivial(len(intervals) > 0)
 
+def h_hetero(ctx):
+    """two inputs with different columns: A stores p1 / p3 / q0.1 / q0.9 and has members, B has members only.  Each file's event
+    probability and quantile come from what THAT file stores (A: the stored values, B: its members)."""
+    import verif.util
+    import verif.axis
+    seed = core.seed()
+    via = ctx.choose("via", ("mem", "text", "nc"), free=True)
+    order = ctx.choose("first-input", ("A", "B"), free=True)
+    bin_type = ctx.choose("bin", ["below", "above=", "within="], free=True)
+    A = dataset(seed)
+    A.name = "A"
+    B = dataset(seed)
+    B.name = "B"
+    for pos in B.positions():
+        B.fields["fcst"][pos] = B.fields["fcst"][pos] + 0.5
+    for f in ("p1", "p3", "p0.1", "q0.1", "q0.5", "q0.9", "pit"):
+        del B.fields[f]
+    for n_, pos in enumerate(B.positions()):
+        for m_ in ("e0", "e1", "e2"):
+            B.fields[m_][pos] = B.fields[m_][pos] + 0.75 * ((n_ + int(m_[1])) % 3)
+    B.fields["obs"] = dict(A.fields["obs"])
+    inputs = [A, B] if order == "A" else [B, A]
+    ref = RD.RefData(inputs)
+    kind, data, site, out = CD.make_data(inputs, via=via, subdir="c08het")
+    if kind != "ok":
+        ctx.fail("hetero:data-%s:%s" % (kind, site), stdout=out[-200:])
+        return
+    thr = [1.0, 3.0]
+    intervals = verif.util.get_intervals(bin_type, np.array(thr))
+    for i in range(2):
+        for iv in intervals:
+            lo, hi, loe, hie = float(iv.lower), float(iv.upper), bool(iv.lower_eq), bool(iv.upper_eq)
+            for name in ("bs", "ign0"):
+                m = get_metric(name)
+                kindm, val, sitem, _ = H.quiet_call(m.compute, data, i, verif.axis.get("no"), iv)
+                if kindm != "ok":
+                    ctx.fail("hetero:%s:%s:%s" % (name, kindm, sitem), input=inputs[i].name)
+                    continue
+                rows = event_p(ref, i, "no", 0, lo, hi)
+                pp = [r[1] for r in rows]
+                oo = [1.0 if in_interval(r[0], lo, hi, loe, hie) else 0.0 for r in rows]
+                exp = THRESH_METRICS[name](pp, oo)
+                got = float(np.asarray(val, dtype=float).reshape(-1)[0])
+                if not tol_equal(exp, got, 2e-6):
+                    ctx.fail("hetero:%s:value" % name, input=inputs[i].name, interval=[lo, hi], expected=exp, actual=got)
+        m = get_metric("quantilescore")
+        import verif.interval
+        ivq = verif.interval.Interval(0.9, np.inf, False, False)
+        kindm, val, sitem, _ = H.quiet_call(m.compute, data, i, verif.axis.get("no"), ivq)
+        if kindm == "ok":
+            rows = ref.request(["obs", ("q", 0.9)], i, "no", 0)
+            exp = MP.pinball([r[0] for r in rows], [r[1] for r in rows], 0.9)
+            got = float(np.asarray(val, dtype=float).reshape(-1)[0])
+            if not tol_equal(exp, got, 2e-6):
+                ctx.fail("hetero:quantilescore:value", input=inputs[i].name, expected=exp, actual=got)
+        else:
+            ctx.fail("hetero:quantilescore:%s:%s" % (kindm, sitem), input=inputs[i].name)
+    ctx.observe((via, order, bin_type))
+    ctx.outcome(via)
+    ctx.nontrivial()
+
 
 def _stored(lo, hi):
     return all(x in (1.0, 3.0, 0.1) or math.isinf(x) for x in (lo, hi))
@@ -438,7 +499,8 @@ def plan(tier):
             ("data-text", h_data, {"via": "text", "missfields": ["p3", "e1"], "thresholds": thr[:3] + thr[5:], "axes": ["no", "location"]}, "dev", 1),
             ("data-nc", h_data, {"via": "nc", "missfields": ["e0"], "thresholds": thr[:3] + thr[5:], "axes": ["no"]}, "dev", 1),
             ("quant-mem", h_quant, {"via": "mem", "missfields": ["obs", "q0.1", "e1", "pit"], "axes": ["no", "leadtime"]}, "dev", 1 if q else 2),
-            ("quant-text", h_quant, {"via": "text", "missfields": ["q0.9", "e2"], "axes": ["no", "location"]}, "dev", 1)]
+            ("quant-text", h_quant, {"via": "text", "missfields": ["q0.9", "e2"], "axes": ["no", "location"]}, "dev", 1),
+            ("hetero", h_hetero, {}, "full", None)]
 
 
 def run(tier, only=None):
